@@ -387,9 +387,14 @@ func (c *Ctx) ttCanPushNester() {
 		rule: "R-TT", fn: "(*stack).canPushNester",
 		atoms: []ttAtom{
 			c.atomCallBool("isStack(x)", []string{"stackTypeAliasConverter"}, nil),
+			c.nativeStackAtom(1),
 			c.flagAtom("nnest", "nnest"),
 		},
-		expect: func(v map[string]bool) string { return fmt.Sprint(!(v["isStack(x)"] && v["nnest"])) },
+		feasible: func(v map[string]bool) bool {
+			// the converter is not consulted for a native Stack: keep one representative
+			return !(v["native(x)"] && v["isStack(x)"])
+		},
+		expect: func(v map[string]bool) string { return fmt.Sprint(!((v["isStack(x)"] || v["native(x)"]) && v["nnest"])) },
 		outcome: c.boolOutcome(0),
 	}
 	// the converter returns (Stack,bool): the atom is its second result
